@@ -241,7 +241,7 @@ class State:
 
 
 class Loop:
-    __slots__ = ("node", "kind", "var", "varterm", "start", "stop", "step", "iterval", "assigned", "written")
+    __slots__ = ("node", "kind", "var", "varterm", "start", "stop", "step", "iterval", "assigned", "written", "head_env")
 
     def __init__(self, node, kind, var=None):
         self.node = node
@@ -252,6 +252,7 @@ class Loop:
         self.iterval = None
         self.assigned = set()
         self.written = set()
+        self.head_env = {}
 
 
 class Event:
@@ -729,7 +730,7 @@ class Walker:
         written = self.effects.written_in(self.func, body)
         lp.assigned, lp.written = assigned, written
         entry_env = dict(st.env)
-        self.emit("loopstart", s, st, loop=lp)
+        self.emit("loopstart", s, st, loop=lp, envsnap=dict(st.env))
         head = st.copy()
         self.kill(head, assigned, written)
         # Houdini over the rule-supplied candidate invariants
@@ -751,6 +752,7 @@ class Walker:
                     if g is not None:
                         b.facts.append(g)
                 self.enter_loop(s, lp, b, test)
+                lp.head_env = dict(b.env)
                 b.loops = b.loops + (lp,)
                 res = [] if b.dead else self.block(body, b)
             finally:
@@ -1063,9 +1065,9 @@ class Walker:
                 self.emit("sub", node, st, a=a, b=b, result=r)
             return r
         if isinstance(op, ast.Mult):
-            if a.lin.is_const() and not isinstance(a.lin.k, float):
+            if a.lin.is_const():
                 return Num(b.lin.scale(a.lin.k), fl)
-            if b.lin.is_const() and not isinstance(b.lin.k, float):
+            if b.lin.is_const():
                 return Num(a.lin.scale(b.lin.k), fl)
             if a.lin.is_const() and b.lin.is_const():
                 return Num(Lin.const(a.lin.k * b.lin.k), fl)
@@ -1313,7 +1315,8 @@ class Walker:
         return Opaque(("call", d, next(self._ids)), e)
 
     def call_resolved(self, e, st, callee, args, kwargs):
-        ev = self.emit("call", e, st, callee=callee, name=callee.name, args=args, kwargs=kwargs, result=None)
+        ev = self.emit("call", e, st, callee=callee, name=callee.name, args=args, kwargs=kwargs, result=None,
+                       envsnap=dict(st.env))
         for r in self.effects.call_writes(self.func, e):
             st.memver[r] = st.memver.get(r, 0) + 1
         res = None
